@@ -4,6 +4,7 @@ import RTA.Lemmas.Demand
 import RTA.Lemmas.Extrapolate
 import RTA.Lemmas.XCurveLTS
 import RTA.Props.C08
+import RTA.Lemmas.RosTotal
 /-! # C20 — analyses are total and independent of the build profile
 
 In the model every operation whose Rust counterpart can fail in a build with debug
@@ -83,5 +84,62 @@ theorem extrapolate_terminates (d : List Nat) (hwf : curveWF d) (h2 : 2 ≤ d.le
 /-- the iterator of `ExtrapolatingCurve` never ends and never gets stuck -/
 theorem extrapolating_iterator_total (d0 : List Nat) (hwf : curveWF d0) (k : Nat) :
     (freshNext d0 k).isSome = true := freshNext_isSome d0 hwf k
+
+/-! ## The ROS 2 analyses
+
+Every guard of the ROS 2 models (`unwrap` of the last callback of a subchain, pointer lookup
+of subchain members in the workload, `Service - Service` on the marginal cost of the end of
+the chain, `service_time` of the closed form, the `distance_to` assertion inside the
+fixed-point search, `step_offsets`, and `bw`'s debug-only brute-force enumeration of the
+relevant steps) holds on well-formed input: the analyses never return `panic`, for EVERY
+divergence limit (`bw`: `1 ≤ limit`), and `bw`'s debug build returns what its release build
+returns.  (Proof: case `limit = 0` directly; otherwise the equalities of C07 with the naive
+evaluators, which have no failing branch on a non-empty subchain; `Lemmas/RosTotal.lean`.) -/
+
+theorem ros_event_source_total (s : Supply) (hs : s.WF) (demand : RB) (hwf : demand.ArrWF)
+    (hex : demand.Exact) (limit : Nat) : rosEventSource s demand limit ≠ .panic :=
+  RosTotal.event_source_total s hs demand hwf hex limit
+
+theorem ros_timer_total (s : Supply) (hs : s.WF) (a : Arr) (C : Nat) (interf : RB)
+    (hwf : a.WF) (hex : a.Exact) (hC : 1 ≤ C) (hpos : 0 < a.N 1)
+    (hwfi : interf.ArrWF) (hexi : interf.Exact) (B limit : Nat) :
+    rosTimer s (.rbf a (.scalar C)) interf B limit ≠ .panic :=
+  RosTotal.timer_total s hs a C interf hwf hex hC hpos hwfi hexi B limit
+
+theorem ros_polling_point_total (s : Supply) (hs : s.WF) (a : Arr) (C : Nat) (interf : RB)
+    (hwf : a.WF) (hex : a.Exact) (hC : 1 ≤ C) (hpos : 0 < a.N 1)
+    (hwfi : interf.ArrWF) (hexi : interf.Exact) (limit : Nat) :
+    rosPollingPoint s (.rbf a (.scalar C)) interf limit ≠ .panic :=
+  RosTotal.polling_point_total s hs a C interf hwf hex hC hpos hwfi hexi limit
+
+theorem ros_chain_total (s : Supply) (hs : s.WF) (a : Arr) (C P : Nat) (others : RB)
+    (hwf : a.WF) (hex : a.Exact) (hC : 1 ≤ C) (hP : 1 ≤ P) (hpos : 0 < a.N 1)
+    (hwfo : others.ArrWF) (hexo : others.Exact) (limit : Nat) :
+    rosChain s (.rbf a (.scalar C)) (.rbf a (.scalar P)) (.rbf a (.scalar (C + P))) others limit
+      ≠ .panic :=
+  RosTotal.chain_total s hs a C P others hwf hex hC hP hpos hwfo hexo limit
+
+/-- rr: all callback kinds, singleton and multi-callback subchains drawn from the workload -/
+theorem ros_rr_total (s : Supply) (hs : s.WF) (wl : List Callback) (sub : List Nat) (limit : Nat)
+    (hne : sub ≠ []) (hsub : ∀ i ∈ sub, i < wl.length)
+    (hwf : ∀ cb ∈ wl, cb.arr.WF ∧ MonoN cb.cost.ofJobs) :
+    rrSubchain s wl sub limit ≠ .panic := RosTotal.rr_total s hs wl sub limit hne hsub hwf
+
+/-- bw, in the release build (`dbg = false`) and in the debug build with the brute-force
+cross-check of the relevant steps (`dbg = true`) -/
+theorem ros_bw_total (s : Supply) (hs : s.WF) (wl : List Callback) (sub : List Nat) (limit : Nat)
+    (hl : 1 ≤ limit) (hne : sub ≠ []) (hsub : ∀ i ∈ sub, i < wl.length)
+    (hwf : ∀ cb ∈ wl, cb.arr.WF ∧ cb.arr.Exact ∧ MonoN cb.cost.ofJobs)
+    (hpos : ∀ e, sub.getLast? = some e → 0 < (wl.getD e default).arr.N 1) (dbg : Bool) :
+    bwSubchain s wl sub limit dbg ≠ .panic :=
+  RosTotal.bw_total s hs wl sub limit hl hne hsub hwf hpos dbg
+
+/-- independence of the build profile where the two builds run different code -/
+theorem ros_bw_profile_independent (s : Supply) (hs : s.WF) (wl : List Callback) (sub : List Nat)
+    (limit : Nat) (hl : 1 ≤ limit) (hne : sub ≠ []) (hsub : ∀ i ∈ sub, i < wl.length)
+    (hwf : ∀ cb ∈ wl, cb.arr.WF ∧ cb.arr.Exact ∧ MonoN cb.cost.ofJobs)
+    (hpos : ∀ e, sub.getLast? = some e → 0 < (wl.getD e default).arr.N 1) :
+    bwSubchain s wl sub limit true = bwSubchain s wl sub limit false :=
+  RosTotal.bw_profile_independent s hs wl sub limit hl hne hsub hwf hpos
 
 end RTA.C20
